@@ -68,7 +68,7 @@ Definition blk (order : nat) (s : st) (me : tid) (th : thread) (tg : option (opt
       match Conc.find p t, Conc.find c t with
       | Some (INode pi cs), Some child =>
         '(sep, _) <- get_nth index cs ;;
-        sep' <- (if index =? 0 then sm <- ismallest child ;; Ok (if ltb key sm then key else sep) else Ok sep) ;;
+        sep' <- Ok (if index =? 0 then (if ltb key sep then key else sep) else sep) ;;
         match isplit order fr child with
         | None =>
           t' <- upd p (fun _ => Ok (INode pi (set_nth index (sep', child) cs))) t ;;
